@@ -748,6 +748,8 @@ func judge(s *session, r *resT) int {
 
 // ---------------------------------------------------------------------------- replay of a schedule
 
+func isArrival(ev string) bool { return ev == "init" || ev == "invoke" || ev == "ret" }
+
 const arrivalTimeout = 3 * time.Second
 const pollEvery = 20 * time.Millisecond
 
@@ -840,6 +842,34 @@ loop:
 			}
 			parked[p.id] = "moving"
 			p.gate <- struct{}{}
+			// If the specification's next step is not an arrival, the released goroutine is, in the
+			// specification, blocked on the initializer mutex: wait until it really is (goroutine
+			// dump: sync.Mutex.Lock) or has turned up at a gate instead, so that the window the
+			// schedule describes is really open when the next release happens.
+			if i+1 < len(c.Hist) && !isArrival(c.Hist[i+1].Ev) {
+				waited := time.Duration(0)
+				for {
+					drained := false
+					for !drained {
+						select {
+						case e := <-s.arriv:
+							pending[e.P] = append(pending[e.P], e)
+						default:
+							drained = true
+						}
+					}
+					if len(pending[p.id]) > 0 || s.blockedOnMutex(p) {
+						break
+					}
+					time.Sleep(50 * time.Microsecond)
+					waited += 50 * time.Microsecond
+					if waited > arrivalTimeout {
+						followed, why, stuck = false, fmt.Sprintf("step %d: after %s(%d) the goroutine neither blocked on the mutex nor arrived", i, h.Ev, h.P), true
+						r.Timeouts++
+						break loop
+					}
+				}
+			}
 		case "init", "invoke", "ret":
 			var ev *event
 			waited := time.Duration(0)
